@@ -193,7 +193,8 @@ def norm_provn(text):
 def canon(t):
     """Order-insensitive normal form of an observation tree: attribute lists and value
     sets sorted (Python sets have no modelled iteration order; defaultdict reads may
-    reorder keys)."""
+    reorder keys); the prefix table too: when two values of one attribute each bring a new
+    namespace, the order in which they are registered follows the set's iteration order."""
     if isinstance(t, str):
         return t
     if t and t[0] == "rec" and len(t) == 4:
@@ -203,7 +204,7 @@ def canon(t):
     if t and t[0] == "mgr" and len(t) == 7:
         out = ["mgr"]
         for part in t[1:]:
-            if isinstance(part, list) and part and part[0] in ("regd", "urimap", "renmap", "prenmap"):
+            if isinstance(part, list) and part and part[0] in ("tbl", "regd", "urimap", "renmap", "prenmap"):
                 out.append([part[0], sorted((canon(x) for x in part[1]), key=dumps)])
             else:
                 out.append(canon(part))
